@@ -415,7 +415,7 @@ def afterDecrypt (fuel : Nat) (warn : Nat) (typ : Byte) (rest : Bytes) : Option 
 theorem readAll_succ (fuel : Nat) (h : Half) (warn : Nat) (wire : Bytes) :
     readAll (fuel + 1) h warn wire =
       if wire.isEmpty then ([], .eof)
-      else if wire.length < 5 then ([], .eof)
+      else if wire.length < 5 then ([], .ueof)
       else if hdrVers wire ≠ 0x0101 then ([], .alert 70)
       else if hdrLen wire > 16384 + 2048 then ([], .alert 22)
       else if wire.length < 5 + hdrLen wire then ([], .ueof)
@@ -423,8 +423,8 @@ theorem readAll_succ (fuel : Nat) (h : Half) (warn : Nat) (wire : Bytes) :
         (h.decrypt (wire.getD 0 0) ((wire.drop 5).take (hdrLen wire))) := by
   rw [readAll]
   rfl
-/-- outcome of `readRecord`'s header handling: stop without delivering (EOF, bad version, oversized,
-    truncated body) or one record: type, body, remaining wire bytes -/
+/-- outcome of `readRecord`'s header handling: stop without delivering (EOF at a record boundary, truncated
+    header, bad version, oversized, truncated body) or one record: type, body, remaining wire bytes -/
 inductive Parsed
   | stop (st : Status)
   | record (typ : Byte) (body rest : Bytes)
@@ -432,7 +432,7 @@ inductive Parsed
 /-- `readRecord` up to the call of `halfConn.decrypt`, with the same tests in the same order as `readAll` -/
 def parse (wire : Bytes) : Parsed :=
   if wire.isEmpty then .stop .eof
-  else if wire.length < 5 then .stop .eof
+  else if wire.length < 5 then .stop .ueof
   else if hdrVers wire ≠ 0x0101 then .stop (.alert 70)
   else if hdrLen wire > 16384 + 2048 then .stop (.alert 22)
   else if wire.length < 5 + hdrLen wire then .stop .ueof
